@@ -384,8 +384,11 @@ def hxs(s):
     return hx(s.encode("latin1")) if s else "-"
 
 
+PROBED = {"2br": False}      # F02-2BR as probed on the real pdsh (set by run)
+
+
 def case_text(case, table, bad, d2):
-    lines = ["d2 %d" % (1 if d2 else 0)]
+    lines = ["d2 %d" % (1 if d2 else 0), "br2 %d" % (1 if PROBED["2br"] else 0)]
     for name, exprs in case.files.items():
         lines.append(" ".join(["file", hxs(name)] + [hxs(e) for e in exprs]))
     for (p, h), v in table.items():
@@ -630,6 +633,25 @@ def probe_d2(cli):
     return None
 
 
+def probe_2br(cli):
+    """F02-2BR on the real pdsh: do exclusions and filters see the names behind the second pair of brackets?
+    True / False; None when the sub-tests disagree"""
+    def hosts(args):
+        rc, out, err = cli.run(["-R", "exec", "-f", "1", "-N"] + args + ["echo", "%h"], timeout=20)
+        return out.split() if rc == 0 else None
+    a = hosts(["-w", "foo[1-2]-[0-1]", "-x", "foo1-0"])
+    b = hosts(["-w", "foo[1-2]-[0-1],/-0$/"])
+    c = hosts(["-w", "foo[1-2]-[0-1]", "-x", "foo[1-2]-0"])
+    fixed = [a == [b"foo1-1", b"foo2-0", b"foo2-1"], b == [b"foo1-0", b"foo2-0"], c == [b"foo1-1", b"foo2-1"]]
+    asfound = [a == [b"foo1-0", b"foo1-1", b"foo2-0", b"foo2-1"], b is None or b == [],
+               c == [b"foo1-0", b"foo1-1", b"foo2-0", b"foo2-1"]]
+    if all(fixed):
+        return True
+    if all(asfound):
+        return False
+    return None
+
+
 def load_corpus():
     d = os.path.join(VERIF_CORPUS, "C02")
     out = []
@@ -669,6 +691,11 @@ def run(ctx):
         if d2 is None:
             ctx.broken.append(("C-BROKEN", "D2 probe", "pdsh neither spins nor answers on a 4200-byte exclusion file"))
             d2 = False
+        br2 = probe_2br(cli)
+        dist["probed-2BR-fixed"] = br2
+        if br2 is None:
+            ctx.broken.append(("C-BROKEN", "F02-2BR probe", "the two-bracket sub-tests on the real pdsh disagree"))
+        PROBED["2br"] = bool(br2)
         if ctx.replay:
             cases = [rebase(Case.from_json(json.load(open(ctx.replay))["case"]), cli.cwd)]
             profs = ["replay"]
